@@ -4,7 +4,7 @@ CONSTANTS
   Shapes = {"get", "form", "json", "identity", "unknownenc"}
   ReuseKinds = {"same", "shorter", "longer", "otherroute", "malformed"}
   MaxReuse = 2
-  Scratch = {}
-  Aliasing = {"params"}
+  Scratch = {"baseurl"}
+  Aliasing = {}
 INVARIANT StaysValid
 INVARIANT StableInHandler
